@@ -4,6 +4,7 @@ import (
 	"bytes"
 	"context"
 	"fmt"
+	"io"
 	"log"
 	"log/slog"
 	"net/url"
@@ -40,6 +41,7 @@ type c04branch struct {
 	ws      zapcore.WriteSyncer
 	bws     *zapcore.BufferedWriteSyncer
 	closeFn func()
+	flaky   bool // its device fails from some call on: not judged, but the other branches must not suffer
 	core    zapcore.Core
 	// reference
 	refBuf  *bytes.Buffer
@@ -212,13 +214,23 @@ func runC04(c *Ctx) {
 		cores = append(cores, br.core)
 		refCores = append(refCores, br.refCore)
 	}
+	if len(branches) >= 2 && c.F.Chance(5) {
+		fb := branches[c.F.Draw(len(branches))]
+		if fb.bws == nil {
+			fb.flaky = true
+			for _, s := range fb.sinks {
+				s.FailFrom = 1 + c.F.Draw(4)
+			}
+			c.Fault("flaky-tee-branch")
+		}
+	}
 	var core zapcore.Core
 	if len(cores) == 1 && g.Chance(2) {
 		core = cores[0]
 	} else {
 		core = zapcore.NewTee(cores...)
 	}
-	base := zap.New(core)
+	base := zap.New(core, zap.ErrorOutput(zapcore.AddSync(io.Discard)))
 
 	nTasks := 2 + g.Weighted(4, 3, 1)
 	maxCalls := 5
@@ -358,6 +370,9 @@ func runC04(c *Ctx) {
 			}
 		}
 		for _, sink := range br.sinks {
+			if br.flaky {
+				continue
+			}
 			c04judge(c, bi, sink, expect, len(tasks))
 			if r.Failed() {
 				return
